@@ -102,3 +102,4 @@ func vfOffsetIn(a, region []byte) int {
 	return int(pa - pr)
 }
 func vfSpawnAtomic(f func()) { panic("VFREPLAY: concurrent harness cannot be replayed by the sequential runner") }
+func vfSpawnCut(f func(), cut int) { panic("VFREPLAY: concurrent harness cannot be replayed by the sequential runner") }
